@@ -5,11 +5,11 @@
    `re` on every run (tools/props/c31.py: random texts through the real `_r_comment`,
    `_r_words` and the real `_preprocess`, compared with `sc`, `words` and `preprocess`).
 
-   Modelled code:
+   Modelled code (regular expressions are quoted with a blank inserted between '*' and ')'):
      _r_comment  (cparser.py:27)   /\*.*?\*/|//([^\n\\]|\\.)*?$    DOTALL|MULTILINE
      replace_keeping_newlines (cparser.py:195)   ' ' + m.group().count('\n') * '\n'
      _r_words    (cparser.py:36)   \w+|\S           (input of _common_type_names, :255)
-     _r_define   (cparser.py:29)   ^\s*#\s*define\s+([A-Za-z_][A-Za-z_0-9]*)\b((?:[^\n\\]|\\.)*?)$
+     _r_define   (cparser.py:29)   ^\s*#\s*define\s+([A-Za-z_][A-Za-z_0-9]* )\b((?:[^\n\\]|\\.)*?)$
      macro value (cparser.py:202)  macrovalue.replace('\\\n', '').strip()
      _r_line_directive (cparser.py:32)  ^[ \t]*#[ \t]*(?:line|\d+)\b.*$   MULTILINE
      _remove_line_directives / _put_back_line_directives (cparser.py:167-187)
@@ -47,7 +47,7 @@ Fixpoint block_end (s : text) (nl : nat) : option (nat * text) :=
       end
   end.
 
-(* `s` is the text after "//".  ([^\n\\]|\\.)*?$ : lazily extend until `$` holds (end of text or
+(* `s` is the text after "//".  The lazy group of _r_comment's second alternative: lazily extend until `$` holds (end of text or
    next char is \n); a backslash takes the next char with it (also a newline, DOTALL); a
    backslash that is the last char of the text makes the match fail (nothing to backtrack to). *)
 Fixpoint line_end (s : text) (nl : nat) : option (nat * text) :=
@@ -144,6 +144,26 @@ Definition first_is_word (y : text) : bool :=
 (* cutting between x and y does not cut a word in two *)
 Definition word_boundary (x y : text) : Prop := last_is_word x && first_is_word y = false.
 
+(* ------------------------------------------------------------------ what may be inserted between two tokens *)
+
+Definition plain_char (x : N) : bool := negb (x =? NL) && negb (x =? BSL).
+
+(* white space, a block comment (its body ends at the first "*/"), a // comment whose body has neither
+   newline nor backslash together with its newline, and any sequence of these *)
+Inductive filler : text -> Prop :=
+| f_ws ws : forallb is_space ws = true -> filler ws
+| f_block c nl : block_end (c ++ [STAR; SLASH]) 0 = Some (nl, []) ->
+                 filler (SLASH :: STAR :: c ++ [STAR; SLASH])
+| f_line c : forallb plain_char c = true -> filler (SLASH :: SLASH :: c ++ [NL])
+| f_app a b : filler a -> filler b -> filler (a ++ b).
+
+(* the same without any newline: blanks, tabs, one-line block comments *)
+Inductive inline_filler : text -> Prop :=
+| if_ws ws : forallb is_inline_space ws = true -> inline_filler ws
+| if_block c : block_end (c ++ [STAR; SLASH]) 0 = Some (0%nat, []) ->
+               inline_filler (SLASH :: STAR :: c ++ [STAR; SLASH])
+| if_app a b : inline_filler a -> inline_filler b -> inline_filler (a ++ b).
+
 (* ------------------------------------------------------------------ #define *)
 
 Fixpoint skip_while (p : N -> bool) (s : text) : text :=
@@ -164,7 +184,7 @@ Fixpoint starts_with (pre s : text) : option text :=     (* Some rest *)
   | _ :: _, [] => None
   end.
 
-(* ((?:[^\n\\]|\\.)*?)$  : Some (value, rest) with rest = [] or NL :: _ ; None on a trailing backslash *)
+(* the value group of _r_define, lazily up to `$` : Some (value, rest) with rest = [] or NL :: _ ; None on a trailing backslash *)
 Fixpoint value_end (s : text) : option (text * text) :=
   match s with
   | [] => Some ([], [])
@@ -294,11 +314,10 @@ Fixpoint split_lines_aux (cur : text) (s : text) : list text :=
   | c :: r => if c =? NL then cur :: split_lines_aux [] r else split_lines_aux (cur ++ [c]) r
   end.
 Definition split_lines (s : text) : list text := split_lines_aux [] s.      (* s.split('\n') *)
-Fixpoint join_lines (ls : list text) : text :=
+Definition join_lines (ls : list text) : text :=          (* '\n'.join(ls) *)
   match ls with
   | [] => []
-  | [l] => l
-  | l :: ls' => l ++ NL :: join_lines ls'
+  | l :: ls' => l ++ flat_map (fun x => NL :: x) ls'
   end.
 
 (* '%d' % n  and int() on [0-9]+  (through the standard library's decimal numbers) *)
@@ -338,7 +357,7 @@ Fixpoint stash_lines (ls : list text) (i : N) : list text * list text :=
   | [] => ([], [])
   | l :: ls' =>
       if is_dirline l then
-        let (out, st) := stash_lines ls' (i + 1) in (s_lineat ++ dec i :: out, l :: st)
+        let (out, st) := stash_lines ls' (i + 1) in ((s_lineat ++ dec i) :: out, l :: st)
       else
         let (out, st) := stash_lines ls' i in (l :: out, st)
   end.
@@ -408,3 +427,10 @@ Definition preprocess_out (s : text) : N * (text * list (text * text)) :=
   | Ok (t, ms) => (0, (t, ms))
   | Err e => (exn_code e, ([], []))
   end.
+
+(* one entry point for the three differential ties: kind 0 = sc, 1 = words, 2 = preprocess *)
+Definition corr_eval (kt : N * text) : N * (text * list (text * text)) :=
+  let (k, t) := kt in
+  if k =? 0 then (0, (sc t, []))
+  else if k =? 1 then (0, ([], map (fun w => (w, [])) (words t)))
+  else preprocess_out t.
